@@ -628,6 +628,23 @@ impl<'a, 'tcx> Visitor<'tcx> for BV<'a, 'tcx> {
                         esc(&self.operand_str(&ops.1))
                     );
                     self.push(loc.block, s);
+                } else if lt.is_floating_point()
+                    && matches!(
+                        op,
+                        mir::BinOp::Eq | mir::BinOp::Ne | mir::BinOp::Lt | mir::BinOp::Le | mir::BinOp::Gt | mir::BinOp::Ge
+                    )
+                {
+                    // comparisons of floats (own event kind: the integer rules iterate `binop`)
+                    let s = format!(
+                        "[\"fcmp\",{},{},{},{},{},{}]",
+                        esc(&format!("{:?}", op)),
+                        esc(&ty_short(tcx, lt)),
+                        line,
+                        esc(&span_macros(span)),
+                        esc(&self.operand_str(&ops.0)),
+                        esc(&self.operand_str(&ops.1))
+                    );
+                    self.push(loc.block, s);
                 }
             }
             Rvalue::UnaryOp(op, o) => {
